@@ -179,6 +179,8 @@ func corruptBeforeBuild(p *Project, r *Rand) {
 	}
 }
 
+var addrRE = regexp.MustCompile(`0x[0-9a-f]{6,16}`)
+
 var pathLineRE = regexp.MustCompile(`(?m)^([ \t]*(?:GET|POST|PUT|PATCH|DELETE|URL)[ \t]+)(/[^ \t\r\n]*)`)
 
 // spellDifferently rewrites the URL paths of a project (and, sometimes, the case of its @names).
@@ -505,6 +507,13 @@ func (c06Engine) Exec(c *Case, job *Job) *Result {
 		if rep.Env.Fresh {
 			j2 := &Job{ID: job.ID, Prop: "C06", Seed: c.Seed, Tier: job.Tier, Case: c, Rep: i + 1}
 			r2, err := runFresh(j2)
+			if _, died := err.(*childDeath); died {
+				// the project kills the process that builds it (C01's business, e.g. K8): nothing to compare
+				res.count("foreign:fresh-process-died", 1)
+				res.Foreign = append(res.Foreign, "C01:process-death")
+				must(Materialise(c.Project.Files))
+				continue
+			}
 			if err != nil {
 				res.Verdict = "harness-error"
 				res.Msg = err.Error()
@@ -644,6 +653,21 @@ func (c06Engine) Exec(c *Case, job *Job) *Result {
 				sites = strings.Join(rep.Env.MapSites, ",")
 			}
 			sig := comp + " under " + what
+			if addrRE.ReplaceAllString(ref, "0xADDR") == addrRE.ReplaceAllString(text, "0xADDR") {
+				// the two observations are equal up to hexadecimal addresses: something prints a pointer.
+				// The signature names the text in front of the first address, so that a known finding
+				// about one message does not hide another one
+				loc := addrRE.FindStringIndex(text)
+				from := loc[0] - 60
+				if from < 0 {
+					from = 0
+				}
+				ctx := text[from:loc[0]]
+				if i := strings.LastIndexByte(ctx, '\n'); i >= 0 {
+					ctx = ctx[i+1:]
+				}
+				sig = comp + " differs-only-in-addresses after: " + ctx
+			}
 			known := false
 			if rep.Env.MapMode != 0 && !rep.Env.Fresh && rep.Env.Conc == 0 && rep.Env.Repeat <= 1 {
 				// Attribution: which single map site, permuted alone, makes the observation differ?
